@@ -179,3 +179,54 @@ for _m in ("_end_read", "_end_write"):
     REG.contract(f"dns.zone.Zone.{_m}", params={"self": _PZ, "txn": T.int}, raises=[],
                  ensures=["self.nodes == old_self.nodes", "(self.origin is None) == (old_self.origin is None)"],
                  props=["C10", "C13"], note="plain zone: ending a reader or rolling back a writer leaves the published node map untouched")
+
+
+# ----------------------------------------------------------------------------- owner names: one storage form whatever the spelling (C10)
+from contracts.name import NAME, ISABS, LAB  # noqa: E402
+
+_NABS = ISABS("name")
+_LN, _LO = "len(name.labels)", "len(origin.labels)"
+_BELOW = (f"({_LO} <= {_LN} and all({LAB('name', 'm')} == {LAB('origin', 'm')} for m in range({_LO})))")
+REG.contract(
+    "dns.zone._validate_name",
+    params={"name": NAME, "origin": T.opt(NAME), "relativize": T.bool},
+    requires=["(origin is None) or " + ISABS("origin")],
+    raises=[("builtins.KeyError", f"(origin is None) or ({_NABS} and not {_BELOW})"),
+            ("builtins.KeyError", f"(origin is not None) and (not {_NABS})", "may")],
+    returns=NAME,
+    ensures=[
+        # an absolute name under the origin: stored without the origin's labels in a relativized zone, as is otherwise
+        f"(not ({_NABS} and relativize)) or (len(result.labels) == {_LN} - {_LO} and all(result.labels[k] == name.labels[k] for k in range({_LN} - {_LO})))",
+        f"(not ({_NABS} and not relativize)) or (result is name)",
+        # a relative name: stored as is in a relativized zone, with the origin appended otherwise
+        f"(not ((not {_NABS}) and relativize)) or (result is name)",
+        f"(not ((not {_NABS}) and not relativize)) or (len(result.labels) == {_LN} + {_LO} "
+        f"and all(result.labels[k] == name.labels[k] for k in range({_LN})) and all(result.labels[{_LN} + k] == origin.labels[k] for k in range({_LO})))",
+    ],
+    props=["C10"],
+    note="_validate_name maps every spelling of an owner name to the zone's one storage form (relative labels in a "
+         "relativized zone, absolute otherwise); names outside the zone and a missing origin are KeyError; a relative name that "
+         "would be too long is KeyError too (modular over the Name contracts)",
+)
+
+REG.lemma(
+    "validate_name_spelling_independent",
+    params={"rel": NAME, "absn": NAME, "origin": NAME, "va": NAME, "vr": NAME, "relativize": T.bool},
+    hyps=[
+        ISABS("origin"), ISABS("absn"), "not " + ISABS("rel"),
+        # absn is rel followed by the origin's labels (the two spellings of one owner name)
+        "len(absn.labels) == len(rel.labels) + len(origin.labels)",
+        "all(absn.labels[k] == rel.labels[k] for k in range(len(rel.labels)))",
+        "all(absn.labels[i] == origin.labels[i - len(rel.labels)] for i in range(len(rel.labels), len(absn.labels)))",
+        # va, vr: what the contract of _validate_name says about the results for the two spellings
+        "(not relativize) or (len(va.labels) == len(absn.labels) - len(origin.labels) and all(va.labels[k] == absn.labels[k] for k in range(len(absn.labels) - len(origin.labels))))",
+        "relativize or (len(va.labels) == len(absn.labels) and all(va.labels[k] == absn.labels[k] for k in range(len(absn.labels))))",
+        "(not relativize) or (len(vr.labels) == len(rel.labels) and all(vr.labels[k] == rel.labels[k] for k in range(len(rel.labels))))",
+        "relativize or (len(vr.labels) == len(rel.labels) + len(origin.labels) and all(vr.labels[k] == rel.labels[k] for k in range(len(rel.labels))) "
+        "and all(vr.labels[i] == origin.labels[i - len(rel.labels)] for i in range(len(rel.labels), len(rel.labels) + len(origin.labels))))",
+    ],
+    goals=["len(va.labels) == len(vr.labels)", "all(va.labels[k] == vr.labels[k] for k in range(len(va.labels)))"],
+    props=["C10"],
+    note="over the postconditions of _validate_name: the relative and the absolute spelling of one owner name are stored "
+         "under label-for-label the same key, in relativized and non-relativized zones alike",
+)
